@@ -1171,50 +1171,81 @@ func c04Padding(c *Ctx, wwa *ssa.Function, ws *types.Named) {
 		}
 		return b == ssa.Value(wwa.Params[0])
 	}
-	// pad = phi(available - W, 0) under < 0
-	var pad *ssa.Phi
-	eachInstr(wwa, func(in ssa.Instruction) {
-		phi, ok := in.(*ssa.Phi)
-		if !ok || !isIntType(phi.Type()) || len(phi.Edges) != 2 {
-			return
-		}
-		var raw ssa.Value
-		zero := false
-		for _, e := range phi.Edges {
-			if k, isK := constInt(e); isK && k == 0 {
-				zero = true
-			} else {
-				raw = e
+	// pad = phi(available - W, 0) under < 0 - in this function, or in a helper handed available - W
+	clampPhiOf := func(f *ssa.Function, pf *prover, isRaw func(l lin) bool) *ssa.Phi {
+		var out *ssa.Phi
+		eachInstr(f, func(in ssa.Instruction) {
+			phi, ok := in.(*ssa.Phi)
+			if !ok || !isIntType(phi.Type()) || len(phi.Edges) != 2 {
+				return
 			}
-		}
-		if !zero || raw == nil {
-			return
-		}
-		l := p.linOf(raw)
-		want := linTerm(p.canon(avail))
-		// available - W
-		wTerm := ""
-		for t, cf := range l.coef {
-			if cf == -1 {
-				wTerm = t
+			var raw ssa.Value
+			zero := false
+			for _, e := range phi.Edges {
+				if k, isK := constInt(e); isK && k == 0 {
+					zero = true
+				} else {
+					raw = e
+				}
 			}
-		}
-		if l.coef[p.canon(avail)] == 1 && len(l.coef) == 2 && l.k == 0 && strings.Contains(wTerm, "."+wF.Name()) {
-			_ = want
+			if !zero || raw == nil {
+				return
+			}
+			l := pf.linOf(raw)
+			if !isRaw(l) {
+				return
+			}
 			// the zero edge is taken exactly when raw < 0
 			for k, e := range phi.Edges {
 				if kk, isK := constInt(e); isK && kk == 0 {
 					var facts []constraint
-					for _, cf := range p.edgeConds(phi.Block().Preds[k], phi.Block()) {
-						facts = append(facts, p.condConstraints(cf.Cond, cf.Val)...)
+					for _, cf := range pf.edgeConds(phi.Block().Preds[k], phi.Block()) {
+						facts = append(facts, pf.condConstraints(cf.Cond, cf.Val)...)
 					}
 					if entails(facts, lt(l, linConst(0), "")) {
-						pad = phi
+						out = phi
 					}
 				}
 			}
+		})
+		return out
+	}
+	isAvailMinusW := func(pf *prover) func(l lin) bool {
+		return func(l lin) bool {
+			wTerm := ""
+			for t, cf := range l.coef {
+				if cf == -1 {
+					wTerm = t
+				}
+			}
+			return l.coef[pf.canon(avail)] == 1 && len(l.coef) == 2 && l.k == 0 && strings.Contains(wTerm, "."+wF.Name())
 		}
-	})
+	}
+	pad := clampPhiOf(wwa, p, isAvailMinusW(p))
+	var padHelper *ssa.Function
+	var padHelperPhi *ssa.Phi
+	if pad == nil {
+		eachInstr(wwa, func(in ssa.Instruction) {
+			call, ok := in.(*ssa.Call)
+			if !ok || pad != nil {
+				return
+			}
+			h := call.Call.StaticCallee()
+			if h == nil || h.Blocks == nil || !inModule(h) {
+				return
+			}
+			for k, a := range call.Call.Args {
+				if k >= len(h.Params) || !isIntType(a.Type()) || !isAvailMinusW(p)(p.linOf(a)) {
+					continue
+				}
+				ph := c.Idx().proverFor(h)
+				par := h.Params[k]
+				if phi := clampPhiOf(h, ph, func(l lin) bool { return l.String() == linTerm(ph.canon(par)).String() }); phi != nil {
+					pad, padHelper, padHelperPhi = phi, h, phi
+				}
+			}
+		})
+	}
 	r.Check("R04.3", name, "pad = available - W, clamped at 0", wwa.Pos(), pad != nil, "")
 	if pad == nil {
 		return
@@ -1289,9 +1320,13 @@ func c04Padding(c *Ctx, wwa *ssa.Function, ws *types.Named) {
 		var hPad lin
 		found := false
 		for k, a := range hc.Call.Args {
-			if k < len(h.Params) && p.canon(a) == p.canon(pad) {
+			if k < len(h.Params) && padHelper == nil && p.canon(a) == p.canon(pad) {
 				hPad, found = linTerm(ph.canon(h.Params[k])), true
 			}
+		}
+		if padHelper == h && padHelperPhi != nil {
+			// the helper clamps the spare room itself
+			hPad, found = linTerm(ph.canon(padHelperPhi)), true
 		}
 		if !found {
 			continue
